@@ -58,7 +58,8 @@ def gen_ranges(ctx, n):
     return cases
 
 
-def judge_ranges(ctx, cases, outs):
+def judge_ranges(ctx, cases, outs, wrap=False):
+    """wrap: the listed overflow finding is open, so the model runs the old (wrapping) loop"""
     rows = []
     for c, o in zip(cases, outs):
         f = c["fetch"] or 5     # New(): blockFetch 0 means the default 5
@@ -70,9 +71,9 @@ def judge_ranges(ctx, cases, outs):
             rs = o["ranges"] or []
             obs = "(Some %s)" % glist(rs, lambda p: "(%d, %d)" % (p[0], p[1]))
             fuel = len(rs) + 2
-        rows.append("((%d, %d, %d), %d%%nat, %s)" % (f, c["begin"], c["end"], fuel, obs))
+        rows.append("(%s, (%d, %d, %d), %d%%nat, %s)" % ("true" if wrap else "false", f, c["begin"], c["end"], fuel, obs))
     vs, msg = vlib.coq_judge_sharded("C20_ranges", "From BX Require Import Base.Prelude Model.Ranges.\nLocal Open Scope N_scope.",
-                                     "(N * N * N) * nat * option (list (N * N))", "judge_ranges", rows)
+                                     "bool * (N * N * N) * nat * option (list (N * N))", "judge_ranges", rows)
     if vs is None:
         ctx.broken("correspondence:judge_ranges", msg)
         return None
@@ -89,7 +90,7 @@ def run_ranges(ctx, known):
     if rc != 0 or len(outs) != len(cases):
         ctx.broken("driver:ranges", e[-1500:])
         return
-    vs = judge_ranges(ctx, cases, outs)
+    vs = judge_ranges(ctx, cases, outs, wrap="C20-ranges-overflow" in known)
     if vs is None:
         return
     kinds = {}
@@ -679,6 +680,6 @@ def replay(ctx, path):
     exe, err = vlib.build_harness("ranges")
     c = obj["input"]
     rc, outs, e = vlib.run_driver(exe, "ranges", [c])
-    vs = judge_ranges(ctx, [c], outs)
+    vs = judge_ranges(ctx, [c], outs, wrap="C20-ranges-overflow" in known)
     print(json.dumps(dict(input=c, impl=outs, verdict=vs)))
     return 0 if vs and vs[0][0] == 0 else 1
